@@ -54,6 +54,8 @@ func withEdit[T any](r T, enc func(T) gen) gen {
 // tweak changes one scalar field of the rule struct p points to.
 func tweak(p interface{}, rng *rand.Rand) {
 	v := reflect.ValueOf(p).Elem()
+	p0 := v.Type().PkgPath()
+	p0 = p0[strings.LastIndex(p0, "/")+1:]
 	var cand []int
 	// fields that are documented as meaningless under the rule's control behaviour are left alone: a module may keep
 	// the old (equivalent) rule object when only such a field differs, and then reports the old value
@@ -64,6 +66,12 @@ func tweak(p interface{}, rng *rand.Rand) {
 	for i := 0; i < v.NumField(); i++ {
 		n := v.Type().Field(i).Name
 		if (n == "BurstCount" && behaviour != "Reject") || (n == "MaxQueueingTimeMs" && behaviour != "Throttling") {
+			continue
+		}
+		// the field that makes every generated rule unique (it counts up from rule to rule) stays as it is: one more
+		// would turn the rule into a twin of its neighbour that differs in the id only, and the managers keep the old
+		// controller - old rule object, old id - of a rule that is equal in every field but the id
+		if (p0 == "flow" && n == "MaxQueueingTimeMs") || (p0 == "circuitbreaker" && n == "RetryTimeoutMs") || (p0 == "hotspot" && n == "ParamsMaxCapacity") {
 			continue
 		}
 		if n == "ID" || n == "Id" || n == "Resource" || n == "ParamKey" || !v.Field(i).CanSet() { // (the hot-parameter wire format has no parameter key)
